@@ -11,6 +11,8 @@ import Mathlib.Tactic.Linarith
 
 set_option linter.unusedSimpArgs false
 set_option linter.unusedVariables false
+set_option linter.unreachableTactic false
+set_option linter.unusedTactic false
 
 namespace Pandora.C12KernelsRegul
 open Pandora Pandora.Confidence Pandora.PyScanGraph
@@ -145,6 +147,130 @@ theorem connectionGraph_generated_eq (segs : List (Pos × Pos)) :
     have h3 : ¬ a < b := by omega
     simp only [h1, h2, h3, decide_true, decide_false, Bool.true_and, Bool.false_and, Bool.false_or, hab, if_true, if_false]
     rw [connRow_eq segs b hb', matGet_upper segs b a hb' hab]
+
+/-! ## The closure nest and the whole `create_connected_graph` -/
+
+theorem length_connectionGraph (segs : List (Pos × Pos)) : (Confidence.connectionGraph segs).length = segs.length := by
+  simp [Confidence.connectionGraph]
+
+theorem length_row_connectionGraph (segs : List (Pos × Pos)) (i : Nat) (hi : i < segs.length) :
+    ((Confidence.connectionGraph segs).getD i []).length = segs.length := by
+  simp [Confidence.connectionGraph, List.getD_eq_getElem?_getD, hi]
+
+theorem any_range_succ (n : Nat) (g : Nat → Bool) :
+    (List.range (n + 1)).any g = (g 0 || (List.range n).any (fun l => g (l + 1))) := by
+  rw [List.range_succ_eq_map]
+  simp [List.any_map, Function.comp_def]
+
+/-- `.any()` over the rows selected by a mask = `any` over the indices whose mask entry is set -/
+theorem any_zip_eq (a : List (List Bool)) (b : List Bool) (h : a.length = b.length) (f : List Bool → Bool) :
+    ((a.zip b).filterMap (fun p => if p.2 then some p.1 else none)).any f
+      = (List.range b.length).any (fun l => b.getD l false && f (a.getD l [])) := by
+  induction a generalizing b with
+  | nil =>
+    cases b with
+    | nil => rfl
+    | cons y b => simp at h
+  | cons x a ih =>
+    cases b with
+    | nil => simp at h
+    | cons y b =>
+      have h' : a.length = b.length := by simpa using h
+      rw [List.length_cons, any_range_succ]
+      simp only [List.zip_cons_cons, List.filterMap_cons, List.getD_cons_zero, List.getD_cons_succ]
+      rw [← ih b h']
+      cases y <;> simp
+
+/-- one pass of the generated closure is the hand model's `closureStep` -/
+theorem closure_step_eq (conn : List (List Bool)) (lines : List Bool) (h : conn.length = lines.length) :
+    tabulateB lines.length (fun j => (anyCol (selectRows conn lines) j || lines.getD j false)) = closureStep conn lines := by
+  unfold tabulateB closureStep
+  apply List.map_congr_left
+  intro j _
+  unfold anyCol selectRows
+  rw [any_zip_eq conn lines h, Bool.or_comm]
+  rfl
+
+/-- the same with the operands of the `or` commuted in the source -/
+theorem closure_step_eq' (conn : List (List Bool)) (lines : List Bool) (h : conn.length = lines.length) :
+    tabulateB lines.length (fun j => (lines.getD j false || anyCol (selectRows conn lines) j)) = closureStep conn lines := by
+  rw [← closure_step_eq conn lines h]
+  unfold tabulateB
+  apply List.map_congr_left
+  intro j _
+  rw [Bool.or_comm]
+
+theorem length_closureStep (conn : List (List Bool)) (lines : List Bool) : (closureStep conn lines).length = lines.length := by
+  simp [closureStep]
+
+/-- the iteration `for _ in range(1, depth)` -/
+theorem iter_eq (conn : List (List Bool)) (n k : Nat) (lines : List Bool) (hc : conn.length = n) (hl : lines.length = n)
+    (body : List Bool → List Bool)
+    (hb : ∀ v : List Bool, v.length = n → body v = closureStep conn v) :
+    iter body k lines = Confidence.iterate (closureStep conn) k lines ∧ (Confidence.iterate (closureStep conn) k lines).length = n := by
+  induction k generalizing lines with
+  | zero => exact ⟨rfl, hl⟩
+  | succ k ih =>
+    have h1 := hb lines hl
+    have h2 : (closureStep conn lines).length = n := by rw [length_closureStep, hl]
+    simp only [iter, Confidence.iterate, h1]
+    exact ih (closureStep conn lines) h2
+
+theorem set_true_eq (lines : List Bool) (i : Nat) :
+    lines.set i true = (List.range lines.length).map (fun k => if k = i then true else lines.getD k false) := by
+  apply List.ext_getElem
+  · simp
+  · intro k h1 h2
+    simp only [List.getElem_set, List.getElem_map, List.getElem_range, List.getD_eq_getElem?_getD]
+    have hk : k < lines.length := by simpa using h1
+    by_cases hik : i = k
+    · simp [hik]
+    · have : ¬ k = i := fun h => hik h.symm
+      simp [hik, this, List.getElem?_eq_getElem hk]
+
+/-- one row of the closure nest, for ANY body of the iteration that is `closureStep` on rows of length `n` -/
+theorem closeRow_core (conn : List (List Bool)) (n depth i : Nat) (body : List Bool → List Bool)
+    (hb : ∀ v : List Bool, v.length = n → body v = closureStep conn v)
+    (hc : conn.length = n) (hl : (conn.getD i []).length = n) :
+    (iter body (depth - 1) (conn.getD i [])).set i true
+      = (List.range n).map (fun k =>
+          if k = i then true else (Confidence.iterate (closureStep conn) (depth - 1) (conn.getD i [])).getD k false) := by
+  obtain ⟨h1, h2⟩ := iter_eq conn n (depth - 1) (conn.getD i []) hc hl body hb
+  rw [h1, set_true_eq, h2]
+
+/-- **`create_connected_graph`: the generated function is the hand model.**  For every list of segments and every depth
+    (`0`: identity; otherwise the connection scan, `depth − 1` closure passes per row, the diagonal set), the matrix the
+    source builds today is `Confidence.connectedGraph`. -/
+theorem createConnectedGraph_generated_eq (segs : List (Pos × Pos)) (depth : Nat) :
+    Generated.KernelsRegul.createConnectedGraph segs.length (blOf segs) (brOf segs) depth
+      = Confidence.connectedGraph segs depth := by
+  unfold Generated.KernelsRegul.createConnectedGraph Confidence.connectedGraph
+  by_cases hd : depth = 0
+  · simp [hd, eye]
+  · simp only [hd, if_false]
+    rw [connectionGraph_generated_eq]
+    apply List.map_congr_left
+    intro i hi
+    have hi' : i < segs.length := by simpa using hi
+    have hc := length_connectionGraph segs
+    have hl := length_row_connectionGraph segs i hi'
+    simp only [Generated.KernelsRegul.closeRow, rowOf]
+    refine closeRow_core (Confidence.connectionGraph segs) segs.length depth i _ ?_ hc hl
+    intro v hv
+    rw [← hv]
+    first
+      | exact closure_step_eq _ v (by rw [hc, hv])
+      | exact closure_step_eq' _ v (by rw [hc, hv])
+
+/-- transfer: `interval_regularization` of the hand model is `graph_regularization` run on the matrix the GENERATED
+    `create_connected_graph` builds from the segments — so `intervalRegularization_widens` (quantile 1 only widens) and the
+    correspondence of C12 speak about the graph the source defines today -/
+theorem intervalRegularization_over_generated (inf sup amb : Grid Val) (thr : Rat) (k depth : Nat) (q : Rat) :
+    intervalRegularization inf sup amb thr k depth q
+      = (let segs := (borders thr k amb).1.zip (borders thr k amb).2
+         graphRegularization inf sup segs
+           (Generated.KernelsRegul.createConnectedGraph segs.length (blOf segs) (brOf segs) depth) q) := by
+  simp only [intervalRegularization, createConnectedGraph_generated_eq]
 
 -- non-vacuity: two rows of segments, overlapping and not, and a far row (the `break`)
 example : Confidence.connectionGraph [((0, 0), (0, 2)), ((0, 5), (0, 7)), ((1, 1), (1, 4)), ((1, 6), (1, 9)), ((3, 0), (3, 9))]
